@@ -3,6 +3,7 @@ package engine
 import (
 	"encoding/json"
 	"fmt"
+	wt "github.com/hnakamur/whispertool"
 	"math"
 	"math/rand/v2"
 	"os"
@@ -32,7 +33,7 @@ type CliCase struct {
 	SchedSeed uint64     `json:"sched_seed"`
 	Deviate   *LibPt     `json:"deviate,omitempty"` // C11: deviation written into the destination
 	DevArch   int        `json:"dev_arch,omitempty"`
-	UlpDev    bool       `json:"ulp_dev,omitempty"` // the deviation is one ulp away from the stored value
+	UlpDev    bool       `json:"ulp_dev,omitempty"`   // the deviation is one ulp away from the stored value
 	EnvFault  string     `json:"env_fault,omitempty"` // F6: "dest-exists" (generate), ...
 	Race      *Cmd       `json:"race,omitempty"`      // "dest-race": a second generate for the same destination
 	Park      *TickFault `json:"park,omitempty"`      // "dest-race": where the first generate is parked
@@ -384,6 +385,7 @@ func genSumWorld(r *rand.Rand, c *CliCase, l Layout, withDest bool) {
 	plus := chance(r, 0.15)
 	for it := 0; it < nitems; it++ {
 		item := fmt.Sprintf("grp/it%d", it)
+		linkDir := chance(r, 0.06) // the item directory is a symbolic link
 		nf := int(between(r, 1, 5))
 		if chance(r, 0.1) {
 			nf = int(between(r, 6, 12))
@@ -394,7 +396,7 @@ func genSumWorld(r *rand.Rand, c *CliCase, l Layout, withDest bool) {
 			if plus {
 				name = fmt.Sprintf("s+%d&=.wsp", f)
 			}
-			c.Files = append(c.Files, WFile{Base: "src", Rel: item + "/" + name, Layout: l, Fills: genFills(r, l, 1, 0.7), Link: chance(r, 0.05)})
+			c.Files = append(c.Files, WFile{Base: "src", Rel: item + "/" + name, Layout: l, Fills: genFills(r, l, 1, 0.7), Link: chance(r, 0.05), LinkDir: linkDir})
 		}
 		if withDest {
 			dst := WFile{Base: "dst", Rel: fmt.Sprintf("%s/sum.wsp", item), Layout: l}
@@ -420,7 +422,21 @@ func genSumWorld(r *rand.Rand, c *CliCase, l Layout, withDest bool) {
 		cmd.Dest = "sum.wsp"
 		cmd.Create = l
 		cmd.NoHeader = false
-		if chance(r, 0.4) {
+		if nitems >= 2 && chance(r, 0.06) {
+			// F6: the existing destination of one item has another layout
+			l2 := mismatchLayout(r, l)
+			var dsts []int
+			for i := range c.Files {
+				if c.Files[i].Base == "dst" {
+					dsts = append(dsts, i)
+				}
+			}
+			if l2.String() != l.String() && len(dsts) > 0 {
+				i := dsts[r.IntN(len(dsts))]
+				c.Files[i].Absent, c.Files[i].Layout, c.Files[i].Fills = false, l2, nil
+				c.EnvFault = "one-destination-has-another-layout"
+			}
+		} else if chance(r, 0.4) {
 			// deviation for the sum-diff check
 			a := r.IntN(len(l.Archs))
 			c.DevArch = a
@@ -476,6 +492,10 @@ func genViewWorld(r *rand.Rand, c *CliCase, l Layout) {
 			}
 		}
 	}
+	if chance(r, 0.12) {
+		// names that need care in a URL or a query string
+		f.Rel = oddName(r) + "/" + oddName(r) + ".wsp"
+	}
 	c.Files = []WFile{f}
 	cmd := Cmd{Kind: c.Mode, Src: f.Rel, Archive: genArchiveSel(r, len(l.Archs)), NoHeader: chance(r, 0.3), Sort: chance(r, 0.5), ViaParse: chance(r, 0.3)}
 	genWindow(r, l, &cmd)
@@ -492,6 +512,16 @@ func genGenerate(r *rand.Rand, c *CliCase, l Layout) {
 	if chance(r, 0.15) {
 		c.EnvFault = "dest-exists"
 		c.Files = []WFile{{Base: "dst", Rel: "g/new.wsp", Layout: l, Fills: genFills(r, l, 0, 0.5)}}
+	} else if chance(r, 0.08) {
+		// F6: the report cannot be written (full disk); with more than a buffer
+		// of report the failure comes before the file is synced
+		c.EnvFault = "textout-devfull"
+		c.Cmd.TextOut = "devfull"
+		if chance(r, 0.6) {
+			// the report goes to a standard output on which nothing can be written
+			c.EnvFault = "stdout-unwritable"
+			c.Cmd.TextOut = "stdout"
+		}
 	} else if chance(r, 0.15) {
 		c.EnvFault = "dest-race"
 		l2 := genLayout(r, pick(r, "tiny", "small"))
@@ -616,6 +646,20 @@ func (cliSim) Run(e *Env, ci interface{}) {
 			return
 		}
 		Advance(e, c.Files[0].Layout.Archs[0].S+int64(c.SchedSeed%7))
+		// meanwhile a new point reached every source file
+		for _, f := range c.Files {
+			if f.Base != "src" || f.Absent {
+				continue
+			}
+			if db, err := wt.Open(filepath.Join(e.Dir, "src", f.Rel), wt.WithoutFlock()); err == nil {
+				n2 := Now()
+				callSafely(func() error {
+					return db.UpdatePointsForArchive([]wt.Point{{Time: wt.Timestamp(n2), Value: 4242.5}}, 0, wt.Timestamp(n2))
+				})
+				db.Sync()
+				db.Close()
+			}
+		}
 		fresh := r.run1(c.Cmd, "fresh")
 		again := r.rerun(r.first, "again")
 		if fresh.aborted || again.aborted || len(fresh.panics) > 0 {
